@@ -237,6 +237,8 @@ def run(model: RepoModel, rep, tier: str):
                           "copytree_with_extension walks the input with os.walk and creates the copy under the workspace without pruning the "
                           "workspace from `dirs`: when the workspace lies inside an input directory (`cd proj; lian ... -f .`) the walk "
                           "descends into the copy it is making and recurses until ENAMETOOLONG")
+    from .c14 import check_path_prefix_tests
+    check_path_prefix_tests(model, rep, "C18.R4")
     key = f"{PREP}::WorkspaceBuilder.copytree_with_extension::symlinked sources skipped"
     from ..model import effective_body
     _eb = effective_body(ct.node)
